@@ -274,7 +274,32 @@ func safeDecode(d *decoder.Sync, r io.Reader) (pkt packet.Packet, err error) {
 			pkt, err = nil, fmt.Errorf("malformed packet: %v", rec)
 		}
 	}()
-	return d.Decode(r)
+	// The decoder ignores the error of the read that fetches the packet body: when the
+	// connection is lost (or times out) in the middle of a packet it goes on with a body
+	// padded with zeros - a publish with an invented payload, or, for a SUBSCRIBE announcing
+	// 256 MiB, tens of millions of empty filters. A packet that was not read completely is
+	// not a packet.
+	tr := &trackingReader{r: r}
+	pkt, err = d.Decode(tr)
+	if err == nil && tr.err != nil {
+		return nil, tr.err
+	}
+	return pkt, err
+}
+
+// trackingReader remembers the first error that left a read request short. (A reader may
+// hand out the last bytes asked for together with io.EOF: that request was served.)
+type trackingReader struct {
+	r   io.Reader
+	err error
+}
+
+func (t *trackingReader) Read(p []byte) (int, error) {
+	n, err := t.r.Read(p)
+	if err != nil && n < len(p) && t.err == nil {
+		t.err = err
+	}
+	return n, err
 }
 
 func (s *connectionWorker) processSession(ctx context.Context, session *sessions.Session) bool {
